@@ -17,7 +17,7 @@ Line protocol (one op per line):
 -/
 namespace Driver.C12
 
-def parseList (s : String) : Option (List Str) :=
+def parseList (s : String) : Option (List (List Char)) :=
   if s == "-" then some [] else (s.splitOn ",").mapM fromHex
 
 def parseDir (w : String) : Option Dir :=
@@ -38,12 +38,12 @@ def insertNat (a : Nat) : List Nat → List Nat
   | [] => [a]
   | b :: bs => if a = b then b :: bs else if a < b then a :: b :: bs else b :: insertNat a bs
 
-def liveStr (cfgs : List Str) (ds : List Dir) : String :=
+def liveStr (inp : Inp) (cfgs : List (List Char)) (ds : List Dir) : String :=
   match parseTree ds with
   | none => "?"
-  | some t => "/".intercalate (cfgs.map fun c => natsStr ((t.emit (defines c)).foldr insertNat []))
+  | some t => "/".intercalate (cfgs.map fun c => natsStr ((t.emit (effDefines inp c)).foldr insertNat []))
 
-def cfgsStr (l : List Str) : String := ",".intercalate (l.map toHex)
+def cfgsStr (l : List (List Char)) : String := ",".intercalate (l.map toHex)
 
 def step (line : String) : String :=
   match fields line with
@@ -51,8 +51,9 @@ def step (line : String) : String :=
     match fromHex ud, parseList undefs, parseList defd, dirs.mapM parseDir with
     | some ud, some undefs, some defd, some ds =>
       let flags : Flags := { fixElse := fl.toList.head? == some '1', fixNotDef := fl.toList.getLast? == some '1' }
-      let cs := getConfigsWith flags { defined0 := defd, userDefines := ud, undefs := undefs } ds
-      s!"C {cfgsStr cs} | L {liveStr cs ds}"
+      let inp : Inp := { defined0 := defd, userDefines := ud, undefs := undefs }
+      let cs := getConfigsWith flags inp ds
+      s!"C {cfgsStr cs} | L {liveStr inp cs ds}"
     | _, _, _, _ => "bad-op"
   | ["sel", force, mo, mp, ud, cfgs] =>
     match mo.toNat?, mp.toNat?, fromHex ud, (cfgs.splitOn ",").mapM fromHex with
